@@ -18,7 +18,9 @@ class Boolean(TypedField):
         def err_prefix():
             return f"{self._name}: " if self._name else ""
 
-        if value not in {"True", "False", True, False}:
+        if not isinstance(value, bool) and not (
+            isinstance(value, str) and value in ("True", "False")
+        ):
             raise TypeError(f"{err_prefix()}Expected {self._ty}; Got {wrap_val(value)}")
 
     def serialize(self, value):
